@@ -2,6 +2,7 @@ import DracoProofs.Tagged
 import DracoProofs.SymbolComplete
 import Generated.Constants
 import DracoProofs.GeneratedCore
+import DracoProofs.GeneratedTable
 /-
   C08 — rANS symbol entropy coder (`EncodeSymbols` / `DecodeSymbols`,
   src/draco/compression/entropy/{ans.h, rans_symbol_*.h, symbol_encoding.cc, symbol_decoding.cc}).
@@ -403,5 +404,71 @@ theorem source_msb_is_log2 (n : Int) (hn : U32 n) (h0 : n ≠ 0) :
     MostSignificantBit n = (Nat.log2 n.toNat : Int) := MostSignificantBit_eq_model n hn h0
 example : Generated.MostSignificantBit 256 = 8 := by
   rw [source_msb_is_log2 _ (by decide) (by decide)]; decide
+
+open Generated in
+/-- the size-class branch of `RAnsSymbolEncoder::EncodeTable` (the statements `int num_extra_bytes = 0; if (prob >= (1 << 6))
+    { … return false; … }` of the loop body, cut out of the translated method by AST position): `return false` exactly for
+    `prob ≥ 2^22`, otherwise 0/1/2 extra bytes for `prob < 2^6`, `< 2^14`, else -/
+theorem source_tableSizeClass_is_model (p : Int) (hp : U32 p) :
+    RAnsSymbolEncoder.EncodeTable_sizeClass p = sizeClass p := EncodeTable_sizeClass_eq_model p hp
+example : Generated.RAnsSymbolEncoder.EncodeTable_sizeClass 16384 = (none, 2) := by
+  rw [source_tableSizeClass_is_model _ (by decide)]; decide
+
+open Generated in
+/-- … and these are the size classes of the model's table encoder: a non-zero entry fails when the class says
+    `return false`, otherwise it is the first byte `(p << 2) | k` followed by `k` extra bytes -/
+theorem table_entry_uses_sizeClass (p : Nat) (ps : List Nat) (hp : p ≠ 0) :
+    encTableGo (p :: ps) 0 =
+      match sizeClass p with
+      | (some _, _) => none
+      | (none, k) => (encTableGo ps 0).map (fun bs => entryBytes p k.toNat ++ bs) := encTableGo_sizeClass p ps hp
+example : encTableGo [16384] 0 = some [2, 0, 1] := by decide
+
+open Generated in
+/-- `RAnsDecoder<12>::read_init` (ans.h; with `mem_get_le32`) on a four byte buffer whose last byte announces the
+    four-byte state class (`x == 3`): the state is the little-endian value masked to 30 bits plus `l_rans_base`, and the
+    call fails exactly when it is not below `l_rans_base * 256` — what `ransReadInit` computes
+    (`Generated.ransReadInit_x3`).  Partial: the classes `x = 0, 1, 2` and longer buffers are translated
+    (`Generated.RAnsDecoder.read_init`) but tied by correspondence only. -/
+theorem source_ransReadInit_x3_is_model (a : Generated.AnsDecoder) (buf : Int → Int) (hb : ∀ i, 0 ≤ buf i ∧ buf i < 256)
+    (h3 : buf 3 / 64 = 3) :
+    RAnsDecoder.read_init a buf 4 =
+      (if (buf 3 * 16777216 + buf 2 * 65536 + buf 1 * 256 + buf 0) % 1073741824 + 16384 ≥ 4194304 then 1 else 0,
+        { buf_offset := 0, state := (buf 3 * 16777216 + buf 2 * 65536 + buf 1 * 256 + buf 0) % 1073741824 + 16384 }) :=
+  RAnsDecoder_read_init_x3 a buf hb h3
+example : (Generated.RAnsDecoder.read_init ⟨0, 0⟩ (fun i => if i = 3 then 192 else if i = 1 then 7 else 0) 4).2.state = 7 * 256 + 16384 := by
+  rw [source_ransReadInit_x3_is_model _ _ (by intro i; split <;> (try split) <;> omega) (by decide)]; decide
+
+open Generated in
+/-- `RAnsDecoder<12>::read_init` on any buffer `pre ++ [top]` whose last byte announces size class 0: failure ↔ the model's `none`;
+    on success the state and `buf_offset` are the model's (`Generated.readInitAgrees`) -/
+theorem source_ransReadInit_is_model_x0 (a : Generated.AnsDecoder) (pre : List Nat) (top : Nat)
+    (hpre : ∀ b ∈ pre, b < 256) (htop : top < 256) (hx : top / 64 = 0) (hlen : pre.length + 1 < 2^31) :
+    readInitAgrees (RAnsDecoder.read_init a (bufOf (pre ++ [top])) ((pre ++ [top]).length : Nat)) (ransReadInit 12 [] (pre ++ [top])) :=
+  read_init_agrees_x0 a pre top hpre htop hx hlen
+open Generated in
+/-- `RAnsDecoder<12>::read_init` on any buffer `pre ++ [b1, top]` whose last byte announces size class 1: failure ↔ the model's `none`;
+    on success the state and `buf_offset` are the model's (`Generated.readInitAgrees`) -/
+theorem source_ransReadInit_is_model_x1 (a : Generated.AnsDecoder) (pre : List Nat) (b1 top : Nat)
+    (hpre : ∀ b ∈ pre, b < 256) (hb1 : b1 < 256) (htop : top < 256) (hx : top / 64 = 1) (hlen : pre.length + 2 < 2^31) :
+    readInitAgrees (RAnsDecoder.read_init a (bufOf (pre ++ [b1, top])) ((pre ++ [b1, top]).length : Nat)) (ransReadInit 12 [] (pre ++ [b1, top])) :=
+  read_init_agrees_x1 a pre b1 top hpre hb1 htop hx hlen
+open Generated in
+/-- `RAnsDecoder<12>::read_init` on any buffer `pre ++ [b2, b1, top]` whose last byte announces size class 2: failure ↔ the model's `none`;
+    on success the state and `buf_offset` are the model's (`Generated.readInitAgrees`) -/
+theorem source_ransReadInit_is_model_x2 (a : Generated.AnsDecoder) (pre : List Nat) (b2 b1 top : Nat)
+    (hpre : ∀ b ∈ pre, b < 256) (hb2 : b2 < 256) (hb1 : b1 < 256) (htop : top < 256) (hx : top / 64 = 2) (hlen : pre.length + 3 < 2^31) :
+    readInitAgrees (RAnsDecoder.read_init a (bufOf (pre ++ [b2, b1, top])) ((pre ++ [b2, b1, top]).length : Nat)) (ransReadInit 12 [] (pre ++ [b2, b1, top])) :=
+  read_init_agrees_x2 a pre b2 b1 top hpre hb2 hb1 htop hx hlen
+open Generated in
+/-- `RAnsDecoder<12>::read_init` on any buffer `pre ++ [b3, b2, b1, top]` whose last byte announces size class 3: failure ↔ the model's `none`;
+    on success the state and `buf_offset` are the model's (`Generated.readInitAgrees`) -/
+theorem source_ransReadInit_is_model_x3 (a : Generated.AnsDecoder) (pre : List Nat) (b3 b2 b1 top : Nat)
+    (hpre : ∀ b ∈ pre, b < 256) (hb3 : b3 < 256) (hb2 : b2 < 256) (hb1 : b1 < 256) (htop : top < 256) (hx : top / 64 = 3) (hlen : pre.length + 4 < 2^31) :
+    readInitAgrees (RAnsDecoder.read_init a (bufOf (pre ++ [b3, b2, b1, top])) ((pre ++ [b3, b2, b1, top]).length : Nat)) (ransReadInit 12 [] (pre ++ [b3, b2, b1, top])) :=
+  read_init_agrees_x3 a pre b3 b2 b1 top hpre hb3 hb2 hb1 htop hx hlen
+example : Generated.readInitAgrees (Generated.RAnsDecoder.read_init ⟨0, 0⟩ (Generated.bufOf ([9] ++ [0, 7, 0, 192])) (5 : Nat))
+    (ransReadInit 12 [] ([9] ++ [0, 7, 0, 192])) :=
+  source_ransReadInit_is_model_x3 _ [9] 0 7 0 192 (by decide) (by decide) (by decide) (by decide) (by decide) (by decide) (by decide)
 
 end Draco
